@@ -24,6 +24,8 @@ CORE = [
     ["THREAD 1 M A", "MAIN L1 P P P I JA"],
     ["THREAD 1 M", "THREAD 2 M", "MAIN L1 I L2 P I JA"],
     ["THREAD 1 M1000 A", "THREAD 2 J1000n", "THREAD 3 M0n L1", "MAIN L3 L2 J2 JA"],
+    ["THREAD 1 M O1 A", "THREAD 2 M O1", "THREAD 3 J O1 O2 V", "MAIN L1 L2 L3 O1 J3 JA"],
+    ["THREAD 1 Jn V O1", "THREAD 2 M V O1", "MAIN L1 L2 O2 J1 JA"],
 ]
 
 
@@ -45,11 +47,17 @@ def random_scenario(rng):
                 ops.append("L%d" % c)
         if rng.random() < 0.3:
             ops.append("P")
+        if rng.random() < 0.35:
+            ops.append("O%d" % rng.randint(1, 2))        # several threads meet at the same once-flag
+        if rng.random() < 0.2:
+            ops.append("V")
         rng.shuffle(ops)
         # thread options: pinned to a cpu that exists / that does not exist (the library then retries unpinned), named
         opt = rng.choice(["", "", "", "", "0", "1000", "1000", "n", "1000n"])
         lines.append(("THREAD %d %s%s %s" % (i, kinds[i], opt, " ".join(ops))).rstrip())
     main = ["L%d" % i for i in range(1, n + 1) if parent[i] == 0]
+    if rng.random() < 0.3:
+        main.insert(rng.randrange(len(main) + 1), "O%d" % rng.randint(1, 2))
     if rng.random() < 0.25:
         main.insert(rng.randrange(len(main) + 1), "I")
         main.insert(rng.randrange(len(main) + 1), "P")
